@@ -13,12 +13,14 @@ one mutator, all interleavings, clock ticks and janitor runs anywhere).  Helper 
 Outcome on the current tree (facts regenerated into `Arc.Generated.C21`):
 * `C21_full` **holds** — but only because `NewAuthManager` pins the pool to one connection and
   `VerifyToken` keeps its `rows` open until it returns, so the mutator's SQL statement cannot run
-  between a verifier's database read and its cache insert (`serialDB`).  Without that accident (and
-  without the proposed generation guard) the stale-insert schedule of DESIGN.md is a counterexample:
-  `C21_full_witness`.  `C21_partial` needs neither.
-* the "has not expired" half of `C21_authn_iff` is **false** on the current tree: the cache-hit path
-  never re-checks the token's own `expires_at` (`C21_authn_expiry_witness`); what does hold is
-  `C21_authn_iff_partial` (issued ∧ enabled ∧ less than one cache TTL past expiry).
+  between a verifier's database read and its cache insert (`serialDB`; the generation guard is NOT in
+  the source).  `C21_full_applies` re-checks exactly that fact on every run; without it the
+  stale-insert schedule of DESIGN.md is a counterexample: `C21_full_witness`.  `C21_partial` needs
+  neither protection.
+* `C21_authn_iff` **holds** since /repo b9131b8 (the cache-hit path re-checks the token's own
+  `expires_at`): `C21_authn_applies` ties it to the source, `C21_authn_iff_current` is the checked full
+  statement.  `C21_authn_expiry_witness` documents what happened before that commit (an expired token
+  authenticated from the cache for up to one cache TTL); `C21_authn_iff_partial` holds regardless.
 -/
 namespace Arc.C21
 
@@ -234,7 +236,8 @@ def AuthnClaim (cfg : Cfg) : Prop :=
       expired r.expiry v.now = false
 
 /-- **C21_authn_iff.** Holds for every configuration in which the cache-hit path re-checks the
-token's own expiry (the proposed repair; NOT the current source). Sequential and concurrent. -/
+token's own expiry (the current source since b9131b8, see `C21_authn_applies`). Sequential and
+concurrent. -/
 theorem C21_authn_iff (cfg : Cfg) (hx : cfg.hitChecksExpiry = true) : AuthnClaim cfg := by
   intro s0 s1 evs i v hA hr hv hres
   obtain ⟨r, hseen, hen, hh, hu⟩ := (auth_run evs s0 s1 hA hr).res i v hv hres
@@ -287,7 +290,7 @@ theorem C21_authn_seq (cfg : Cfg) (s0 s1 : State) (evs : List Ev) (i : Nat) (v :
   · rw [hdb]; exact h
   · exact h
 
-/-! ### the expiry counterexample — real on the current source -/
+/-! ### the expiry counterexample — real before /repo b9131b8, kept as the tightness witness -/
 
 def cfgNoHitExpiry : Cfg :=
   { serialDB := true, genGuard := false, hitChecksExpiry := false, ttl := 3600, maxCache := 100 }
@@ -331,6 +334,15 @@ theorem C21_authn_expiry_witness : ¬ AuthnClaim cfgNoHitExpiry := by
     subst hr
     rw [hnow] at hexp
     simp [expired] at hexp
+
+/-- **C21_authn_applies.** The CURRENT source re-checks `entry.info.ExpiresAt` in the cache-hit
+condition of `VerifyToken` (fixed in /repo b9131b8). Removing that conjunct makes this `decide` fail. -/
+theorem C21_authn_applies : Arc.Generated.C21.hitChecksExpiry = true := by decide
+
+/-- **C21_authn_iff_current.** The second sentence of the property at full strength for the LTS
+configured from the current source, any cache TTL and cache size. -/
+theorem C21_authn_iff_current (ttl maxCache : Nat) : AuthnClaim (currentCfg ttl maxCache) :=
+  C21_authn_iff _ C21_authn_applies
 
 /-- what the regenerated facts say about the expiry clause today: the full claim once the cache-hit
 path re-checks `ExpiresAt`, the counterexample until then. Re-checked on every run. -/
